@@ -529,3 +529,16 @@ pub enum FvKind {
 pub fn json_err() -> serde_json::Error {
     serde_json::Error::io(std::io::Error::from(std::io::ErrorKind::InvalidData))
 }
+
+/// a serde_json error of category Eof ("EOF while parsing"), as a truncated document gives:
+/// produced by the real parser on the empty string
+pub fn json_eof_err() -> serde_json::Error {
+    // from_reader tracks line/column incrementally (from_str computes them with the memchr
+    // crate, whose runtime CPU detection is inline assembly Kani cannot compile)
+    let empty: &[u8] = &[];
+    match serde_json::from_reader::<&[u8], bool>(empty) {
+        Err(e) => e,
+        Ok(_) => json_err(),
+    }
+}
+
